@@ -42,7 +42,15 @@ def generate(seed, tier="quick"):
                     {"kind": "zeros", "seed": rng.randrange(1 << 30), "frac_zero": rng.choice([0.1, 0.3, 0.6])},
                 ])
     ops = S.gen_history_ops(rng, world, total=rng.choice([0.5, 1.0, 2.0, 4.0, 8.0]),
-                            n_max=rng.choice([3, 6, 12, 25, 50]))
+                            n_max=rng.choice([3, 6, 12, 25, 50]),
+                            restart_share=0.08 if rng.random() < 0.3 else 0.0)
+    # the sliding threshold changes between updates (the driver rewrites the params dict)
+    if mode != "chi0" and rng.random() < 0.3:
+        for _ in range(rng.randint(1, 3)):
+            ops.insert(rng.randrange(len(ops) + 1),
+                       {"op": "set_param", "params": rng.randrange(len(world["paramsets"])),
+                        "key": "gbs_threshold",
+                        "value": rng.choice([0.0, 0.1, 0.3, 0.5, 0.9, rng.uniform(0, 0.9)])})
     if rng.random() < 0.15:
         for op in ops:
             op["gbs_keep_all"] = True
@@ -168,12 +176,22 @@ class C09Monitor:
 
 
 def execute(scn):
-    world = World(scn["world"])
-    mon = C09Monitor()
-    mon.start(world)
-    world.run(scn["ops"], after_op=mon.after_op)
+    import shutil
+    import tempfile
+
+    tmp = tempfile.mkdtemp(prefix="pdsim_c09_") if any(o["op"] == "restart" for o in scn["ops"]) else None
+    try:
+        world = World(scn["world"], scratch_dir=tmp)
+        mon = C09Monitor()
+        mon.start(world)
+        world.run(scn["ops"], after_op=mon.after_op)
+    finally:
+        if tmp:
+            shutil.rmtree(tmp, ignore_errors=True)
     c = mon.c
-    c["update_calls"] = len(world.log)
+    c["update_calls"] = sum(1 for r in world.log if r["op"] == "update")
+    c["restarts_through_store"] = sum(1 for r in world.log if r["op"] == "restart" and r["status"] == "ok")
+    c["threshold_changed_between_updates"] = sum(1 for r in world.log if r["op"] == "set_param")
     stats = {
         "counters": c, "maxima": mon.maxima,
         "sim_strain": float(sum(m.strain for m in world.minerals)),
@@ -212,14 +230,14 @@ ASSUMPTIONS = ["'integrated volume fraction' = the fractions handed to apply_gbs
                "step of the update (the observation point named by the property)",
                "if an update reaches no interposed call only the derived clauses are judged; zero "
                "observed updates in a batch is a harness error"]
-PROBES = ["updates_with_floored_grains", "grains_crossed_threshold_in_update",
+PROBES = ["restarts_through_store", "threshold_changed_between_updates", "updates_with_floored_grains", "grains_crossed_threshold_in_update",
           "near_tie_at_threshold", "exact_tie_at_threshold", "chi0_updates", "per_step_calls_recorded"]
 
 
 def warmup():
     from ..warm import warm_world
 
-    warm_world(restart=False)
+    warm_world(restart=True)
 
 
 def coverage_floor(counters, n_done):
